@@ -36,6 +36,10 @@ def gen(seed, tier):
     low = rng.choice(FR)
     high = rng.choice([f for f in FR if f >= low])
     sc = {"prop": "C08", "seed": seed, "kind": kind, "pool": {"supply": rng.choice(SUPPLY), "demand": rng.choice(DEMAND), "utilisation": rng.choice(FR), "allocation": rng.choice(FR)}}
+    # the regulation steps are taken by the controller's own run() loop (one per interval of
+    # virtual time, the first one at once) instead of by calling regulate() directly
+    sc["via_run"] = kind in ("linear", "relsupply") and rng.random() < 0.25
+    sc["run_interval"] = rng.choice([0.5, 1.0, 2.0, 8.0])
     nsteps = rng.randint(1, 12) if rng.random() < 0.8 else rng.randint(13, 60)
     pivots_fit = [low, high]
     pivots_supply, pivots_demand = [], []
@@ -167,9 +171,9 @@ def run(scenario, tape_values):
 
     try:
         if kind == "linear":
-            ctrl = LinearController(pool, low_utilisation=params["low_utilisation"], high_allocation=params["high_allocation"], rate=params["rate"])
+            ctrl = LinearController(pool, low_utilisation=params["low_utilisation"], high_allocation=params["high_allocation"], rate=params["rate"], **({"interval": sc["run_interval"]} if sc.get("via_run") else {}))
         elif kind == "relsupply":
-            ctrl = RelativeSupplyController(pool, low_utilisation=params["low_utilisation"], high_allocation=params["high_allocation"], low_scale=params["low_scale"], high_scale=params["high_scale"])
+            ctrl = RelativeSupplyController(pool, low_utilisation=params["low_utilisation"], high_allocation=params["high_allocation"], low_scale=params["low_scale"], high_scale=params["high_scale"], **({"interval": sc["run_interval"]} if sc.get("via_run") else {}))
         elif kind == "switch":
             args = []
             for i, s in enumerate(params["slaves"]):
@@ -218,6 +222,18 @@ def run(scenario, tape_values):
                     await trio.sleep_until(k * interval - interval / 4)
                     apply_state(st)
                 await trio.sleep_until(k * interval + interval / 4)
+            world.log("horizon")
+        elif sc.get("via_run") and kind in ("linear", "relsupply"):
+            itv = sc["run_interval"]
+            for k, st in enumerate(steps):
+                if k:
+                    await trio.sleep_until(k * itv - itv / 4)
+                apply_state(st)
+                world.log("step-begin", k=k, interval=itv, before=dict(pool.state()))
+                if k == 0:
+                    await start_service(world, nursery, "service", ctrl, "C08/run-raised/" + kind + "/%s")
+                await trio.sleep_until(k * itv + itv / 4)
+                world.log("step-end", k=k, after=dict(pool.state()))
             world.log("horizon")
         else:
             for k, st in enumerate(steps):
